@@ -155,6 +155,37 @@ func runC17(c *Ctx) {
 		return true
 	})
 	c.fam("exhaustive", "maxlen", max)
+	// tag grammar: a start or end tag of an allowed or a rejected element, every short run of attribute syntax,
+	// then a rejected start tag and a tail that would close a quote the filter (wrongly) believes to be open.
+	{
+		prefixes := []string{"<x", "</x", "<s", "</s", "<X", "</ x"}
+		tails := []string{"", "\">", "'>", ">"}
+		mid := []string{" ", "/", "=", "\"", "'", ">", "a"}
+		one := func(fam string, m []byte) {
+			for _, p := range prefixes {
+				for _, t := range tails {
+					rawOne(fam, sFilter, []byte(p+string(m)+"<s>"+t))
+				}
+			}
+		}
+		k := 4
+		if !c.quick() {
+			k = 6
+		}
+		enumStrings(mid, k, func(s []byte) bool {
+			one("tag-grammar-exhaustive", s)
+			return true
+		})
+		c.fam("tag-grammar-exhaustive", "maxlen", k)
+		for i := 0; i < c.N(20000, 400000); i++ {
+			rng := newRng(c.Seed, "c17-tag", i)
+			var sb strings.Builder
+			for n := 5 + rng.Intn(6); n > 0; n-- {
+				sb.WriteString(rng.Pick(mid))
+			}
+			one("tag-grammar-random", []byte(sb.String()))
+		}
+	}
 	frag := []string{"<", ">", "<s>", "<S>", "<s ", "<script>", "</script>", "<SCRIPT x=y>", "<scr", "ipt>", "<!--", "-->", "--!>", "<!-->", "<!--->", "<!---", "<![CDATA[", "]]>", "<!D", "<!d x \">\">", "<?", "?>", "<3", "< ", "<s<s>", "<a title=\"", "\">", "<a title='>'>", "=", "\"", "'", "/", "</s>", "</ s>", "</>", "<>", "s", " ", "\n", "x", "<textarea>", "<TITLE>", "<style", "<xmp/>", "<iframe\n>", "<plaintext>", "<noembed>", "<noframes>", "-", "!", "[", "]"}
 	n := c.N(60000, 1500000)
 	for i := 0; i < n; i++ {
